@@ -15,5 +15,6 @@ func init() {
 		NextGuard(c, "R-NEXTGUARD", libPkgs(c))
 		PanicSafeLock(c, "R-PANICSAFE", fns, 4)
 		CacheGuard(c, "R-CACHEGUARD", libPkgs(c), 2)
+		RawField(c, "R-RAWFIELD", c.Pkg("fp"), 2)
 	})
 }
